@@ -34,6 +34,8 @@ ALPHABET = {
     'D2': 'hamlet/a/char/x/model',
     'D3': 'hamlet/a/char/y',
     'S1': 'hamlet/s/sq001/sh0010/anim/v001/w/n1/abc',
+    'S2': 'hamlet/s/sq001/sh0010/anim/v001/w/ma',       # a leaf (shot__file)
+    'S3': 'hamlet/s/sq001/sh0010/anim/v001/w/ma/abc',   # a cache node named like an extension: NOT a child of S2
     'N1': 'hamlet/a/char/x/model/v001/w',         # typed, but its type has no path template
     'U1': 'bla/bla',                              # untyped
     'P1': 'hamlet',
